@@ -60,7 +60,7 @@ DecoOk(f, o) == /\ o.k > 0 => f.k = 1
 
 (* option bits of a request: 1 lock, 2 rep, 4 repne, 8 xacquire, 16 xrelease; anything else is not generated           *)
 Lock(o) == Bit(o.opt, 0) = 1
-OnlyKnownOptions(o) == o.opt < 32
+OnlyKnownOptions(o) == o.opt < 128           \* + 32 short_(), 64 long_(): size hints for a label operand
 (* LOCK needs a memory operand (SDM vol.2 LOCK); XACQUIRE needs LOCK, XRELEASE needs LOCK unless the row is not lockable (mov) *)
 PrefixOk(f, o) == /\ Lock(o) => (f.lock = 1 /\ HasMem(o))
                   (* repi: the row says [repIgnore] (rep ret).  bnd: the row says [bnd] - F2 is the MPX BND prefix on branches; F3 on *)
@@ -68,6 +68,7 @@ PrefixOk(f, o) == /\ Lock(o) => (f.lock = 1 /\ HasMem(o))
                   (* "excluded by the database" there (asmjit documents it as InstFlags::kRepIgnored)                              *)
                   /\ Bit(o.opt, 1) = 1 => (f.rep = 1 \/ f.repi \/ f.bnd)
                   /\ Bit(o.opt, 2) = 1 => (f.repne = 1 \/ f.repi \/ f.bnd)
+                  /\ (Bit(o.opt, 5) = 1 \/ Bit(o.opt, 6) = 1) => (Bit(o.opt, 5) + Bit(o.opt, 6) = 1 /\ \E j \in 1..Len(o.ops) : o.ops[j].t = "l")
                   /\ Bit(o.opt, 3) = 1 => (f.xacq = 1 /\ Lock(o) /\ HasMem(o))
                   /\ Bit(o.opt, 4) = 1 => (f.xrel = 1 /\ HasMem(o) /\ (f.lock = 1 => Lock(o)))
 
@@ -138,10 +139,40 @@ NearMissVerdict(o) ==
   ELSE IF Ok(o.off.e) THEN <<"I", "near-miss:validator-refuses-encoder-accepts">>
   ELSE NONE
 
-X86Verdict(o) == CASE o.kind = "base" -> BaseVerdict(o)
-                   [] o.kind = "xmode" -> XModeVerdict(o)
-                   [] o.kind = "nm" -> NearMissVerdict(o)
-                   [] OTHER -> <<"U", "kind">>
+(* emitter-integrated validation.  o.ev = the same request on a real x86::Assembler / Builder / Compiler (em) with the option     *)
+(* subset d (1 = kValidateAssembler, 2 = kValidateIntermediate), with / without logger, at some position of the code.  "Strict  *)
+(* validation on" must mean InstAPI::validate wherever the request is emitted:                                                 *)
+(*   Assembler with kValidateAssembler     accepts  <=>  validate accepts and the plain encoder accepts                         *)
+(*   Assembler without kValidateAssembler  accepts  <=>  the plain encoder accepts                                              *)
+(*   Builder / Compiler with kValidateIntermediate   accepts (at emit time)  <=>  validate accepts                               *)
+EmitterLegVerdict(o, e) ==
+  IF e.em = "asm" THEN
+       (IF Bit(e.d, 0) = 1 THEN
+             (IF Ok(e.e) /\ ~Ok(o.v) THEN <<"V", "assembler-with-validation-on-accepts-what-validate-refuses">>
+              ELSE IF Ok(e.e) /\ ~Ok(o.off.e) THEN <<"V", "assembler-with-validation-on-accepts-what-the-plain-assembler-refuses">>
+              ELSE IF ~Ok(e.e) /\ Ok(o.v) /\ Ok(o.off.e) THEN <<"V", "assembler-with-validation-on-refuses-what-validate-and-encoder-accept">>
+              ELSE NONE)
+        ELSE IF Ok(e.e) # Ok(o.off.e) THEN <<"V", "assembler-without-kValidateAssembler-differs-from-the-plain-assembler">>
+        ELSE NONE)
+  ELSE IF Bit(e.d, 1) = 1 THEN
+       (IF Ok(e.e) /\ ~Ok(o.v) THEN <<"V", "builder-with-validation-on-accepts-what-validate-refuses">>
+        ELSE IF ~Ok(e.e) /\ Ok(o.v) THEN <<"V", "builder-with-validation-on-refuses-what-validate-accepts">>
+        ELSE NONE)
+  ELSE NONE
+
+EmitterVerdict(o) ==
+  IF ~o.known \/ Len(o.ev) = 0 THEN NONE
+  ELSE LET bad == {j \in 1..Len(o.ev) : EmitterLegVerdict(o, o.ev[j]) # NONE}
+       IN IF bad = {} THEN NONE ELSE EmitterLegVerdict(o, o.ev[CHOOSE j \in bad : \A k \in bad : j <= k])
+
+X86FormVerdict(o) == CASE o.kind = "base" -> BaseVerdict(o)
+                       [] o.kind = "xmode" -> XModeVerdict(o)
+                       [] o.kind = "nm" -> NearMissVerdict(o)
+                       [] OTHER -> <<"U", "kind">>
+(* a violation of the form clauses first, then one of the emitter clause, then the information of the form clauses *)
+X86Verdict(o) == LET fv == X86FormVerdict(o)
+                     ev == EmitterVerdict(o)
+                 IN IF fv[1] = "V" THEN fv ELSE IF ev # NONE THEN ev ELSE fv
 
 \* ------------------------------------------------------------------------------------------------------------------
 \* AArch64: which operand patterns the database has (rows of db/isa_aarch64.json as read by tools/db_export_a64.js)
